@@ -2,6 +2,7 @@ package seams
 
 import (
 	"context"
+	"errors"
 	"fmt"
 	"strings"
 	"sync"
@@ -24,6 +25,8 @@ type SessionStore struct {
 	Ops map[string]int
 	// OnOp observes every operation after it ran (kind, key, found).
 	OnOp func(kind, key string, found bool)
+	// F, if set, injects read failures (SessionGetErr).
+	F *FaultPoints
 	// KeepWrites records every value ever stored (for the key canary).
 	KeepWrites bool
 	Writes     []string
@@ -55,9 +58,22 @@ func (s *SessionStore) op(kind, key string) {
 	s.mu.Unlock()
 }
 
+// SessionGetErr: a read of the session store fails (a shared Redis or Memcached store that
+// cannot be reached); the value stays as it is.
+const SessionGetErr = "session.get-error"
+
+// ErrSessionInjected is the injected read failure.
+var ErrSessionInjected = errors.New("sim: injected session store failure")
+
 func (s *SessionStore) Get(_ context.Context, key any) (any, error) {
 	k := key.(string)
 	s.op("Get", k)
+	if s.F != nil && s.F.Hit(SessionGetErr, keyClass(k)) {
+		if s.OnOp != nil {
+			s.OnOp("Get!error", k, false)
+		}
+		return nil, ErrSessionInjected
+	}
 	s.mu.Lock()
 	e, ok := s.m[k]
 	if ok && !e.exp.IsZero() && time.Now().After(e.exp) {
